@@ -516,6 +516,20 @@ def run_job1(job, tier='quick', want_trace=False, keep=None, select=None):
             res['state'] = 'timeout' if any(o[0] == 'timeout' for o in bad) else 'error'
             res['messages'] += [o[1] for o in bad]
             return res
+        # cbmc reports UNKNOWN for obligations that lie behind a failing one on every path (it cannot
+        # decide them once the failing assertion is taken as an assumption).  Second pass: exactly those
+        # obligations alone, without the failing ones in the property set.
+        if not want_trace:
+            allr = [r for o in outs for r in o[3]]
+            unk = [r.get('property') for r in allr if r.get('status') == 'UNKNOWN']
+            if unk and any(r.get('status') == 'FAILURE' for r in allr):
+                o2 = run_group(len(groups) + 1, unk)
+                res['cmds'].append('second pass over %d obligations left UNKNOWN behind a failing one' % len(unk))
+                if o2[0] == 'ok' and o2[3]:
+                    newst = {r.get('property'): r for r in o2[3]}
+                    outs = [(o[0], o[1], o[2], [newst.get(r.get('property'), r) if r.get('status') == 'UNKNOWN' else r
+                                                  for r in o[3]]) for o in outs]
+                    res['solver_s'] = round(res['solver_s'] + o2[2], 2)
         for o in outs:
             res['messages'] += o[1]
             for r in o[3]:
